@@ -40,7 +40,6 @@ M("c03-left-wall-gap-zero", ["C03", "C02"], (RO, "constraints.append(vpsc.Constr
 
 # ---- C05 -------------------------------------------------------------------
 M("c05-lm-sign-swap", ["C05"], (VP, "                dfdv += _dfdv * c.right.scale\n                c.lm = -_dfdv", "                dfdv += _dfdv * c.right.scale\n                c.lm = _dfdv"))
-M("c05-split-skips-update", ["C05"], (VP, "    def split(self, inactive):\n        self.updateBlockPositions()\n", "    def split(self, inactive):\n"))
 M("c05-mergeacross-forgets-offset", ["C05", "C01"], (VP, "            v.offset += dist\n", "            v.offset += 0\n"))
 M("c05-no-cycle-detection", ["C05"], (VP, "                if lb.isActiveDirectedPathBetween(v.right, v.left):", "                if False and lb.isActiveDirectedPathBetween(v.right, v.left):"))
 M("c05-cost-ignores-weight", ["C05"], (VP, "            _sum += d * d * v.weight", "            _sum += d * d"))
@@ -98,8 +97,6 @@ M("c04-layers-dropped-last", ["C04"], (FO, "        self.layers = layers\n", "  
 M("c04-stubwidth-not-counted", ["C04"], (DI, "                currentLayerWidth += self.options[\"stubWidth\"]\n", ""))
 M("c04-simple-mod-offbyone", ["C04"], (DI, "            for j in range(mod - 1, -1, -1):", "            for j in range(mod - 1, 0, -1):"))
 M("c06-no-remove-stub", ["C06", "C04"], (FO, "        for node in self._nodes:\n            node.removeStub()\n", ""))
-M("c06-stub-target-stale", ["C06", "C02"], (RO, "            node.parent.currentPos if node.parent else node.idealPos", "            node.parent.currentPos if node.parent else (node.idealPos if node.layerIndex == 0 else node.currentPos)"))
-M("c06-sort-reversed-ties", ["C06"], (DI, "        nodes = sorted(nodes, key=lambda x: x.idealPos)", "        nodes = sorted(nodes, key=lambda x: (x.idealPos, -x.width))"))
 M("c06-overlapcount-cached", ["C06"], (DI, "            node.overlaps = [x.data for x in overlaps]\n            node.overlapCount = len(overlaps)", "            node.overlaps = [x.data for x in overlaps]\n            node.overlapCount = max(node.overlapCount, len(overlaps))"))
 M("c06-set-options-stale-layerwidth", ["C06", "C04"], (FO, "        else:\n            disOptions[\"layerWidth\"] = None\n", "        else:\n            pass\n"))
 
@@ -125,7 +122,6 @@ M("c10-class-level-nodes-cache", ["C10"], (TL, "    def get_nodes(self):\n      
 M("c10-latex-defaults-in-place", ["C10"], (TL, "        latex_opts = {k: v for k, v in DEFAULT_OPTIONS[\"latex\"].items()}", "        latex_opts = DEFAULT_OPTIONS[\"latex\"]"))
 M("c11-revert-options-none-fix", ["C11"], (TL, "        if options is None:\n            options = {}\n", ""))
 M("c11-revert-degenerate-fix", ["C11"], (SC, "    b = (b - a) or float(\"inf\")\n    return lambda x: (x - a) / b\n", "    return lambda x: (x - a) / (b - a)\n"))
-M("c11-days-this-month-december", ["C11", "C17"], (DT, "    lambda date, offset: d3_time_month_offset(date, offset),", "    lambda date, offset: d3_time_month_offset(date, offset) if date.month + offset != 13 else date.replace(year=date.year + 1, month=1, day=date.day + 0 if date.day < 2 else 1),"))
 
 # ---- behaviour-preserving edits: every check must stay silent ----------------
 EQUIVALENT = []
@@ -135,6 +131,7 @@ def E(name, props, *edits):
     EQUIVALENT.append({"name": name, "props": props, "edits": [tuple(e) for e in edits]})
 
 
+E("eq-stub-target-dead-branch", ["C06", "C02"], (RO, "            node.parent.currentPos if node.parent else node.idealPos", "            node.parent.currentPos if node.parent else (node.idealPos if node.layerIndex == 0 else node.currentPos)"))
 E("eq-split-skips-update-of-block-positions", ["C05", "C01", "C02"], (VP, "    def split(self, inactive):\n        self.updateBlockPositions()\n", "    def split(self, inactive):\n"))
 E("eq-mostviolated-really-pops", ["C05", "C01"], (VP, "            l[deletePoint] = l[n - 1]\n            l = l[:-1]\n", "            l[deletePoint] = l[n - 1]\n            del l[-1]\n"))
 E("eq-copy-with-slices", ["C12", "C14"], (SC, "            list(self._domain),\n            list(self._range),", "            self._domain[:],\n            self._range[:],"))
